@@ -533,6 +533,88 @@ def row_no_labelled_cell(rng, workdir, deadline):
 
 
 # --------------------------------------------------------------------------------------------
+def row_large_and_fractional(rng, workdir):
+    """two deterministic-size datasets outside the tiny scope: (a) 600 cells, one cluster of 500 spread
+    evenly over the file, so that per-cluster counts exceed 255 although every worker's share stays
+    below 256; (b) fractional 'raw' values with per-cell totals in (0, 1) (expected / ambient-corrected
+    counts): CPM must still be value / total * 1e6."""
+    from cell_type_mapper.diff_exp.precompute_from_anndata import precompute_summary_stats_from_h5ad
+    row = fx.new_row('cell_type_mapper.diff_exp.precompute_from_anndata.precompute_summary_stats_from_h5ad#large',
+                     FORM, '600 cells x 3 genes (a 500-cell cluster interleaved with 4 small ones), n_processors {1,3}, '
+                           'rows_at_a_time 100; 60 cells with fractional raw values, five with a total of 0.5',
+                     ['large: every dataset equals the direct computation', 'fractional raw values: n_cells, gt0 exactly; sum, '
+                      'sumsq to 1e-6 relative', 'the statistics do not depend on the number of workers'])
+    cases = []
+    # (a)
+    n = 600
+    labels = ['big' if i % 6 else f'small{(i // 6) % 4}' for i in range(n)]
+    X = np.zeros((n, 3), dtype=np.int64)
+    for i in range(n):
+        X[i] = [rng.choice([0, 1, 2, 5]), rng.choice([0, 3, 40]), rng.choice([10, 100, 1000])]
+    cases.append(('large', X, labels, STAT_KEYS))
+    # (b)
+    n = 60
+    labels = [f'f{i % 3}' for i in range(n)]
+    Xf = np.array([[rng.choice([0.0, 0.25, 1.5, 3.0]), rng.choice([0.5, 2.0, 7.25]), rng.choice([0.0, 0.75, 12.0])]
+                   for _ in range(n)])
+    for i in range(0, n, 12):
+        Xf[i] = [0.25, 0.25, 0.0]          # total 0.5
+    cases.append(('fractional raw values', Xf, labels, ('n_cells', 'sum', 'sumsq', 'gt0')))
+    for name, X, labels, keys in cases:
+        clusters = sorted(set(labels))
+        L = fx.to_log2cpm(X)
+        want = dict(n_cells=np.array([labels.count(c) for c in clusters]),
+                    sum=np.array([L[[i for i, l in enumerate(labels) if l == c]].sum(axis=0) for c in clusters]),
+                    sumsq=np.array([(L[[i for i, l in enumerate(labels) if l == c]] ** 2).sum(axis=0) for c in clusters]),
+                    gt0=np.array([(X[[i for i, l in enumerate(labels) if l == c]] > 0).sum(axis=0) for c in clusters]))
+        if 'gt1' in keys:
+            tot = X.sum(axis=1)
+            for k, op in (('gt1', lambda a, b: a > b), ('ge1', lambda a, b: a >= b)):
+                want[k] = np.array([[sum(1 for i, l in enumerate(labels) if l == c and op(int(X[i, g]) * 10**6, int(tot[i])))
+                                     for g in range(X.shape[1])] for c in clusters])
+        p = os.path.join(workdir, f"{name.split()[0]}.h5ad")
+        fx._write_h5ad(p, X, [f'cell_{i}' for i in range(len(labels))], ['g0', 'g1', 'g2'],
+                       encoding='csr' if name == 'large' else 'dense',
+                       obs_cols={'class': ['K'] * len(labels), 'cluster': labels})
+        first = None
+        for n_proc in (1, 3):
+            args = dict(dataset=name, n_processors=n_proc, rows_at_a_time=100, n_cells=len(labels),
+                        cluster_sizes={c: labels.count(c) for c in clusters})
+            row['cases'] += 1
+            out = os.path.join(workdir, f"{name.split()[0]}_{n_proc}.h5")
+            tmp = os.path.join(workdir, f"{name.split()[0]}_{n_proc}_tmp")
+            os.makedirs(tmp)
+            try:
+                with fx.quiet():
+                    precompute_summary_stats_from_h5ad(
+                        data_path=p, column_hierarchy=['class', 'cluster'], taxonomy_tree=None, output_path=out,
+                        rows_at_a_time=100, normalization='raw', tmp_dir=tmp, n_processors=n_proc)
+            except BaseException as e:   # noqa
+                if isinstance(e, (KeyboardInterrupt, SystemExit)):
+                    raise
+                fx.add_failure(row, 'the statistics stage completes on a valid reference dataset',
+                               'unexpected-exception', args, f"{type(e).__name__}: {e}\n{traceback.format_exc()[-600:]}")
+                continue
+            row['accepted'] += 1
+            fx.note_case(row, (name, n_proc))
+            got = read_stats(out)
+            order = [got['cluster_to_row'][c] for c in clusters]
+            for k in keys:
+                g, w = np.asarray(got[k])[order], np.asarray(want[k])
+                good = np.allclose(g, w, rtol=1e-6, atol=1e-9) if k in ('sum', 'sumsq') else np.array_equal(g, w)
+                if not good:
+                    fx.add_failure(row, f"{name}: dataset {k} equals the direct computation", 'ensures', args,
+                                   dict(got=g.tolist()[:3], want=w.tolist()[:3]))
+            if first is None:
+                first = got
+            else:
+                for k in keys:
+                    if not np.allclose(np.asarray(first[k], dtype=float), np.asarray(got[k], dtype=float), rtol=1e-6, atol=1e-9):
+                        fx.add_failure(row, f'{name}: {k} does not depend on the number of workers', 'ensures', args,
+                                       dict(one_worker=np.asarray(first[k]).tolist()[:3], now=np.asarray(got[k]).tolist()[:3]))
+    return fx.finish_row(row)
+
+
 def run(tier='quick', seed=0, jobs=1):
     rng = random.Random(1009 * (int(seed) + 1))
     quick = tier != 'thorough'
@@ -548,4 +630,5 @@ def run(tier='quick', seed=0, jobs=1):
             rows.append(row_truncate(rng, d, n_datasets=8 if quick else 60, deadline=t0 + budget * 0.88))
             rows.append(row_merge(rng, d, n_cases=40 if quick else 400, deadline=t0 + budget))
             rows.append(row_no_labelled_cell(rng, d, deadline=t0 + budget + 5))
+            rows.append(row_large_and_fractional(random.Random(77 + int(seed)), d))
     return rows
